@@ -183,6 +183,10 @@ def _classify_terminator(prog: Program, call: ast.Call, text_is, depth=0) -> str
             pname = params[0]
             if assignments_to(tgt.node, pname):
                 return "unknown"  # parameter rebound before emission
+            for st in tgt.node.body:
+                m = _modifies_text(st, lambda e: isinstance(e, ast.Name) and e.id == pname)
+                if m:
+                    return "modified:" + m
             writes = _stdout_writes(prog, tgt.node)
             if len(writes) != 1:
                 return "unknown"
